@@ -66,7 +66,9 @@ class CCodeMapper(LokiStringifyMapper):
         if expr.kind is not None:
             _type = SymbolAttributes(BasicType.REAL, kind=expr.kind)
             return f'({self.intrinsic_type_mapper(_type)}) {str(expr.value)}'
-        return str(expr.value)
+        # A Fortran double-precision exponent letter (1.5d0) is not valid in C, where
+        # an unsuffixed floating constant is a double already
+        return str(expr.value).lower().replace('d', 'e')
 
     def map_int_literal(self, expr, enclosing_prec, *args, **kwargs):
         if expr.kind is not None:
